@@ -184,8 +184,16 @@ def sparse_cases(run, seed, mods, ncase):
         # sparse pattern with gaps and isolated pixels, none on the border
         p = float(r.choice([0.15, 0.4, 0.7, 0.95]))
         mask = r.random(shape) < p
-        mask[0, :] = mask[-1, :] = False
-        mask[:, 0] = mask[:, -1] = False
+        # two classes: patterns that stay off the border (these can also be compared with the dense variant, which
+        # treats the border as background) and patterns that use the first/last row and column
+        interior = bool(idx % 2)
+        if interior:
+            mask[0, :] = mask[-1, :] = False
+            mask[:, 0] = mask[:, -1] = False
+        else:
+            mask[:, 0] |= r.random(shape[0]) < 0.6
+            mask[0, :] |= r.random(shape[1]) < 0.6
+            mask[-1, -1] = True
         if mask.sum() == 0:
             mask[shape[0] // 2, shape[1] // 2] = True
         fr = sparseframe.from_data_mask(mask.astype(np.int8), img, {})
@@ -211,8 +219,10 @@ def sparse_cases(run, seed, mods, ncase):
         nl = sparseframe.sparse_localmax(fr)
         if nl != npk or not np.array_equal(fr.pixels["localmax"], want):
             run.violation("sparseframe.sparse_localmax", "wrapper labels differ from reference", desc)
+        if not interior:
+            run.count("sparse_border_patterns")
+            continue
         # same partition as the dense variant on the same pixels: embed with a background below every present pixel
-        dimg = np.where(mask, img + np.float32(img.size), img - np.float32(img.size) * 0 - np.float32(0)).astype(np.float32)
         dimg = np.where(mask, img + np.float32(img.size + 1), img).astype(np.float32)
         lab = np.zeros(shape, np.int32)
         wrk = np.zeros(shape, np.uint8)
@@ -290,3 +300,4 @@ def check(run, replay=None):
     run.extra["thread_counts"] = list(THREADS)
     run.require_counter("libgomp_runs", 500)
     run.require_counter("sparse_runs", 50)
+    run.require_counter("sparse_border_patterns", 10)
